@@ -72,7 +72,7 @@ var fragFlagNames = []string{"root-shape", "supported", "supported2", "dense-slo
 	"groups-are-map-keys", "groups-are-slots", "read-groups-have-slots", "has-quick-program", "has-balancing", "groups-are-slots(dense)"}
 
 func legFrag(c *Ctx) {
-	c.Rule("every pattern of the c01-writer corpus (same random stream: full generator syntax + sparse/named numbering + harvested test patterns), parsed and written by regexp2; the exported post-rewrite tree with the writer's real slot map is given to the model, which evaluates the decidable hypotheses of C01_compile_correct_exec_partial (thm1: supported, dense), C01_compile_correct2_exec_partial (thm2: + balancing), C01_compile_correct_capmap_exec_partial (thm3: any slot map), C01_compile_correct_write_quick_exec_partial (thm4: the quick program), the static frame-shape verifier tyck_auto of Proofs/CompileCfSafe.v on the full and the quick program (hypothesis of C13_limit_dichotomy_typed / C01_exec_total_typed), and on a sample of (program, input, start 0) the path monitor (hypothesis path_ok of C01_exec_total_partial / C13_dichotomy_for_supported_partial); non-trivial = program longer than 8 words (distinct by pattern,options)")
+	c.Rule("every pattern of the c01-writer corpus (same random stream: full generator syntax + sparse/named numbering + harvested test patterns), parsed and written by regexp2; the exported post-rewrite tree with the writer's real slot map is given to the model, which evaluates the decidable hypotheses of C01_compile_correct_exec_partial (thm1: supported, dense), C01_compile_correct2_exec_partial (thm2: + balancing), C01_compile_correct_capmap_exec_partial (thm3: any slot map), C01_compile_correct_write_quick_exec_partial (thm4: the quick program), the static frame-shape verifier tyck_auto of Proofs/CompileCfSafe.v on the full and the quick program (hypothesis of C13_limit_dichotomy_typed / C01_exec_total_typed), the side condition term_ok of the termination theorems (Proofs/SpecTermProofs.v: every loop body one-directional; hypothesis of C01_exec_total_terminating), and on a sample of (program, input, start 0) the path monitor (hypothesis path_ok of C01_exec_total_partial / C13_dichotomy_for_supported_partial); non-trivial = program longer than 8 words (distinct by pattern,options)")
 	pats := writerCorpus(c)
 	type item struct {
 		desc string
@@ -226,6 +226,46 @@ func legFrag(c *Ctx) {
 	c.res.Histogram[fmt.Sprintf("fraction of full programs accepted by the static verifier (tyck_auto) = %s", pct(tyOK, tyAll))] = tyOK
 	c.res.Histogram[fmt.Sprintf("fraction of quick programs accepted by the static verifier (tyck_auto) = %s", pct(tyqOK, tyqAll))] = tyqOK
 	c.Gate("the static verifier accepts some real program", tyOK > 0)
+
+	// the side condition of the termination theorems (Proofs/SpecTermProofs.v: term_ok), on every exported tree
+	termLegs := make([]int, len(ins))
+	for i := range termLegs {
+		termLegs[i] = 107
+	}
+	kouts, err := runModel(c.ModelBin, termLegs, ins)
+	if err != nil {
+		c.violate(Violation{Leg: c.Leg, Kind: "obligation", Desc: "model execution failed (term_ok)", Detail: err.Error(), NoInput: true}, "")
+		return
+	}
+	tmOK, tmAll, tmLook, tmLookOK := 0, 0, 0, 0
+	var tmMax int64
+	for i, o := range kouts {
+		c.res.ModelEvals++
+		if len(o) != 3 {
+			c.violate(Violation{Leg: c.Leg, Kind: "obligation", Desc: items[i].desc, Detail: fmt.Sprintf("unexpected model output %v (term_ok)", fmtInts(o)), NoInput: true}, "")
+			continue
+		}
+		tmAll++
+		if o[1] == 0 {
+			tmLook++
+		}
+		if o[0] == 1 {
+			tmOK++
+			if o[1] == 0 {
+				tmLookOK++
+			}
+			if o[2] > tmMax {
+				tmMax = o[2]
+			}
+		} else {
+			c.Add(&Case{Desc: items[i].desc + " -> term_ok FALSE (a loop body with consuming nodes in both directions)", Class: "termination side condition: term_ok false"})
+		}
+	}
+	c.res.Histogram[fmt.Sprintf("fraction of exported trees with one-directional loop bodies (term_ok, hypothesis of C01_exec_total_terminating) = %s", pct(tmOK, tmAll))] = tmOK
+	c.res.Histogram[fmt.Sprintf("fraction of trees WITH lookarounds / expression conditionals that are term_ok = %s", pct(tmLookOK, tmLook))] = tmLookOK
+	c.res.Histogram["largest reference fuel bound (term_fuel) over term_ok trees, text length not counted"] = int(tmMax)
+	c.Gate("some real tree satisfies term_ok", tmOK > 0)
+	c.Gate("some real tree with a lookaround satisfies term_ok", tmLookOK > 0)
 
 	// the path monitor
 	mouts, err := runModel(c.ModelBin, monLegs, monIns)
